@@ -1,11 +1,11 @@
 /-
 M-Lottery (C16): the flip lottery of `core/ceremony/lottery.go`, what a client is told to solve
-(`getFlipsToSolve`, `core/ceremony/ceremony.go:784`) and the recipient list / package index of the private flip
-key package (`ceremony.go:1827 PrivateEncryptionKeyCandidates`, `:1862 getPrivateKeyPackageIndex`,
+(`getFlipsToSolve`, `core/ceremony/ceremony.go:791`; ceremony.go line numbers as of /repo commit b05364e5) and the recipient list / package index of the private flip
+key package (`ceremony.go:1852 PrivateEncryptionKeyCandidates`, `:1887 getPrivateKeyPackageIndex`,
 `core/mempool/keyspool.go:502 EncryptPrivateKeysPackage`, `:526 getEncryptedKeyFromPackage`).
 
 One shard is described by `fl : List Nat`, the number of flips each candidate of the shard has submitted, in
-candidate order (this is exactly what `getCandidatesAndFlips`, `ceremony.go:685`, builds: candidate `i` is an
+candidate order (this is exactly what `getCandidatesAndFlips`, `ceremony.go:694`, builds: candidate `i` is an
 author iff `fl[i] > 0`, its flips are `flipsPerAuthor[i]`, and `shard.flips` is the concatenation in candidate
 order, so flip `j` of candidate `a` has the global index `flipIdx fl a j`; flip cids are distinct, which is what
 lets `hashMap[string(f)]`, `lottery.go:149-152,174`, recover that index).
@@ -38,7 +38,7 @@ def appendAt : List (List Nat) → Nat → Nat → List (List Nat)
 /-- `m[i]` of a `map[int][]int` (absent = nil) -/
 def look (m : List (List Nat)) (i : Nat) : List Nat := m.getD i []
 
-/-- lottery.go:320 getAuthorsIndexes (`IsAuthor = len(FlipCids) > 0`, ceremony.go:744) -/
+/-- lottery.go:320 getAuthorsIndexes (`IsAuthor = len(FlipCids) > 0`, ceremony.go:745) -/
 def authorsIndexes (fl : List Nat) : List Nat :=
   (List.range fl.length).filter (fun i => decide (0 < fl.getD i 0))
 
@@ -267,7 +267,7 @@ def flipsDistribution (fl : List Nat) (apc : List (List Nat)) (q : Nat) (p3 : Li
   | .badInput => .badInput
   | .fuel => .fuel
 
-/-! ### the whole lottery of one shard (ceremony.go:560-565) -/
+/-! ### the whole lottery of one shard (ceremony.go:567-571) -/
 
 structure Result where
   apc : List (List Nat)     -- authorsPerCandidate
@@ -290,19 +290,19 @@ def lottery (fl : List Nat) (q : Nat) (p1 p2 : List (List Nat)) (p3 : List Nat) 
 
 /-! ### what a candidate is told to solve, and who can open whose key package -/
 
-/-- ceremony.go:784 getFlipsToSolve for candidate index `c`, as indexes into `shard.flips`
+/-- ceremony.go:791 getFlipsToSolve for candidate index `c`, as indexes into `shard.flips`
 (`allFlips[myFlips[j] % len(allFlips)]`) -/
 def flipsToSolve (fl : List Nat) (lists : List (List Nat)) (c : Nat) : List Nat :=
   if fl.sum = 0 ∨ fl.length = 0 then [] else (look lists c).map (· % fl.sum)
 
-/-- the candidate that submitted the flip with global index `f` (`flipAuthorMap`, ceremony.go:709) -/
+/-- the candidate that submitted the flip with global index `f` (`flipAuthorMap`, ceremony.go:716) -/
 def authorOfAux : List Nat → Nat → Nat → Option Nat
   | [], _, _ => none
   | k :: t, a, f => if f < k then some a else authorOfAux t (a + 1) (f - k)
 
 def authorOf (fl : List Nat) (f : Nat) : Option Nat := authorOfAux fl 0 f
 
-/-- ceremony.go:1841-1850: the candidates whose public keys the author encrypts its private flip key for
+/-- ceremony.go:1866-1875: the candidates whose public keys the author encrypts its private flip key for
 (`[]` = the error "does not have candidates") -/
 def recipients (r : Result) (a : Nat) : List Nat := look r.cpa a
 
@@ -310,7 +310,7 @@ def indexOfAux : List Nat → Nat → Nat → Option Nat
   | [], _, _ => none
   | x :: t, c, i => if x = c then some i else indexOfAux t c (i + 1)
 
-/-- ceremony.go:1862 getPrivateKeyPackageIndex (`none` = -1) -/
+/-- ceremony.go:1887 getPrivateKeyPackageIndex (`none` = -1) -/
 def packageIndex (r : Result) (c a : Nat) : Option Nat := indexOfAux (recipients r a) c 0
 
 /-- keyspool.go:502 EncryptPrivateKeysPackage, inner layer: entry `i` is the author's private flip key encrypted to
@@ -322,7 +322,7 @@ def keyPackage {K E : Type} (enc : Nat → K → E) (r : Result) (a : Nat) (key 
 /-- keyspool.go:526 getEncryptedKeyFromPackage after the outer layer is opened (`none` = the length error) -/
 def keyFromPackage {E : Type} (pkg : List E) (i : Nat) : Option E := pkg[i]?
 
-/-- ceremony.go:1737 GetFlipKeys + :1770 DecryptMessage: what candidate `c` obtains for the flips of author `a` -/
+/-- ceremony.go:1761 GetFlipKeys + :1802 DecryptMessage: what candidate `c` obtains for the flips of author `a` -/
 def obtainKey {K E : Type} (enc : Nat → K → E) (dec : Nat → E → Option K) (r : Result) (c a : Nat) (key : K) : Option K :=
   match packageIndex r c a with
   | none => none                                    -- "invalid private key index"
